@@ -110,6 +110,7 @@ func coarseAlphabet(p int) map[string][]classOpt {
 			return []*refmodel.Comp{okComp(1, 32), c}
 		}),
 		comps("[nil-element]", func() []*refmodel.Comp { return []*refmodel.Comp{nil} }),
+		comps("[ok,nil,ok]", func() []*refmodel.Comp { return []*refmodel.Comp{okComp(1, 32), nil, fullComp(3, 48)} }),
 		comps("[ok,mval-missing]", func() []*refmodel.Comp {
 			c := fullComp(2, 32)
 			c.MVal = nil
@@ -249,6 +250,13 @@ func certNeighbourhood() []string {
 			for _, ch := range ins {
 				add(base[:i] + ch + base[i:])
 			}
+		}
+		// a non-ASCII decimal digit in place of as many ASCII characters as it has bytes (same byte length)
+		for i := 0; i+2 <= len(base); i++ {
+			add(base[:i] + "٣" + base[i+2:])
+		}
+		for i := 0; i+3 <= len(base); i++ {
+			add(base[:i] + "３" + base[i+3:])
 		}
 	}
 	return out
